@@ -52,8 +52,8 @@ CHECKS = {
    technique='Lean 4 theorems (induction on the Cox-de Boor recursion, telescoping sums) + exact-rational differential correspondence with b_spline_basis',
    ref='7/C03'),
  'C05': dict(
-   text='Theorems for all n and all coefficient vectors over any linear ordered commutative ring: each constraint matrix is symmetric PSD, its quadratic form at the coefficients is the sum of squared violating first (monotone) / second (convex, concave) differences, and it is zero iff the coefficients satisfy the constraint. Tied to /repo by exact comparison with pygam.penalties.monotonic_*/convex/concave and Term/TensorTerm/TermList.build_constraints (per-fibre matrices, x1e9, conditioning ridge), and at fit level by shape checks of partial_dependence on sorted grids (domain and linear continuation) for converged constrained fits of five model classes on contradicting data.',
-   note=NOTE_COMMON + 'PARTIAL: the function-level implication (non-decreasing / convex coefficients => monotone / convex spline) and the bound on the residual violation of a converged fit are validated by the fit-level stream (violation <= 1e-6 (1 + range) on 401-point grids), not proved; rounding of the 1e9-weighted solve is not modelled.',
+   text='Theorems for all n and all coefficient vectors over any linear ordered commutative ring: each constraint matrix is symmetric PSD, its quadratic form at the coefficients is the sum of squared violating first (monotone) / second (convex, concave) differences, and it is zero iff the coefficients satisfy the constraint; function level: non-decreasing (non-increasing) coefficients give a spline of order >= 1 that is non-decreasing (non-increasing) on the whole real line, inside the knot range and on both linear continuations (head-sum recursion + summation by parts), any order inside the range. Tied to /repo by exact comparison with pygam.penalties.monotonic_*/convex/concave and Term/TensorTerm/TermList.build_constraints (per-fibre matrices, x1e9, conditioning ridge), and at fit level by shape checks of partial_dependence on sorted grids (domain and linear continuation) for converged constrained fits of five model classes on contradicting data.',
+   note=NOTE_COMMON + 'PARTIAL: the convex / concave function-level implication (order >= 2) and the bound on the residual violation of a converged fit are validated by the fit-level stream (violation <= 1e-6 (1 + range) on 401-point grids), not proved; rounding of the 1e9-weighted solve is not modelled.',
    technique='Lean 4 theorems (sum-of-squares algebra) + exact differential correspondence of constraint matrices + fit-level shape oracle',
    ref='7/C05'),
  'C06': dict(
